@@ -48,7 +48,9 @@ TOK_NOSPAN = r"""(?P<SPACE>\s+)|(?P<COMMENT_EOL>//.*)|(?P<WORD>[a-z_]+)|(?P<NUM>
           |(?P<SEMI>;)|(?P<STRING>"[^"]*")|(?P<LP>\()|(?P<RP>\))"""
 TOK_PASCAL = r"""(?P<SPACE>\s+)|(?P<COMMENT_EOL>//.*)|(?P<COMMENT_ML>\(\*)|(?P<WORD>[a-z_]+)|(?P<NUM>[0-9]+)
           |(?P<SEMI>;)|(?P<STRING>"[^"]*")|(?P<LP>\()|(?P<RP>\))"""
-SPAN_PASCAL = {'COMMENT_ML': r"(?P<END_COMMENT>(\*[^)]|[^*])*)\*\)"}
+# (written the way the tokenizer pattern may be written: blanks and a comment inside the regexp)
+SPAN_PASCAL = {'COMMENT_ML': r"""(?P<END_COMMENT> ( \*[^)] | [^*] )* )
+                                 \*\)      # the closer"""}
 # two kinds of multi-line comments in one tokenizer, each with its own closer
 TOK_TWO = TOK.replace("(?P<LP>", "(?P<COMMENT_P>\\(\\*)|(?P<LP>")
 SPAN_TWO = {'COMMENT_ML': None, 'COMMENT_P': r"(?P<END_COMMENT_P>(\*[^)]|[^*])*)\*\)"}
@@ -63,7 +65,11 @@ STMT_PRODS = {
     'E': [('STMTS',)],
     'STMTS': [('STMT', 'STMTS'), ()],
     'STMT': [('WORD', 'OPTNUM', ';'), ('IF', 'OPTW', 'OPTNUM', ';'), ('NUM', 'OPTW', ';'),
-             ('STRING', ';'), ('(', 'STMTS', ')'), ('DO', 'DECL', ';')],
+             ('STRING', ';'), ('(', 'STMTS', ')'), ('DO', 'DECL', ';'),
+             # reached only by backtracking: "( ab )" first fails as a block, then LBL tries WORD NUM, gives the
+             # WORD back and matches nothing - in front of the very token it had consumed
+             ('(', 'LBL', 'WORD', ')')],
+    'LBL': [('WORD', 'NUM'), ()],
     'OPTNUM': [('NUM',), ()],
     'OPTW': [('WORD',), ()],
     # groups of alternatives with a common prefix (left-factorized by the parser), one alternative
@@ -153,6 +159,11 @@ def gen_stmt(rng, depth=0):
         out = [("STRING", rng.choice(STRS))]
     else:
         out = [("(", "(")]
+        if rng.random() < 0.35:
+            if rng.random() < 0.4:
+                out.extend([("WORD", rng.choice(WORDS)), ("NUM", rng.choice(NUMS))])
+            out.extend([("WORD", rng.choice(WORDS)), (")", ")")])
+            return out
         for _ in range(rng.randint(0, 2)):
             out.extend(gen_stmt(rng, depth + 1))
         out.append((")", ")"))
